@@ -90,12 +90,16 @@ structure Sites where
   /-- path.go GetPath checks `cur.typ` against the step kind even on an isAll node (whose type tag, after a struct
   '*', is the FIRST field's): `$.*` then PathInMask("$.s.a") is false; repaired: the checks apply to non-all nodes only -/
   gpTypAll : Bool
+  /-- mask.go addPath, end of path: `cur.isAll = true` keeps the children that earlier, deeper paths settled below the
+  node (`$.s.a` then `$.s`: black list leaves `s` hollowed out, white `$.l[*].z` then `$.l` still filters);
+  repaired: `cur.all, cur.fdMask, cur.intMask, cur.strMask = nil, nil, nil, nil` as well -/
+  prefixKeeps : Bool
   deriving DecidableEq, Repr
 
 /-- the tree this model was written against -/
-def Sites.asFound : Sites := ⟨true, true, true, true, true, true, true, true, true, true, true, true, true⟩
+def Sites.asFound : Sites := ⟨true, true, true, true, true, true, true, true, true, true, true, true, true, true⟩
 /-- every proposed repair applied -/
-def Sites.repaired : Sites := ⟨false, false, false, false, false, false, false, false, false, false, false, false, false⟩
+def Sites.repaired : Sites := ⟨false, false, false, false, false, false, false, false, false, false, false, false, false, false⟩
 
 /-! ## panic sites (one definition each) -/
 
@@ -584,6 +588,11 @@ def addFieldStar (sch : Schema) (rec : Mask → Bytes → Ty → Res Mask)
     let child' ← rec child rest2 d
     .ok (cur1.setAllM (.some child'))
 
+/-- end of a path (mask.go:449-451): the node is complete -/
+def Mask.endPath (cur : Mask) (cfg : Sites) : Mask :=
+  if cfg.prefixKeeps then cur.setIsAll true
+  else Mask.mk cur.typ true cur.isBlack .none false .nil false .nil false .nil
+
 /-- the `.` case of the token loop (mask.go:173-238); `rec` is the rest of the loop -/
 def addField (cfg : Sites) (sch : Schema) (rec : Mask → Bytes → Ty → Res Mask)
     (cur : Mask) (rest : Bytes) (d : Ty) : Res Mask :=
@@ -660,7 +669,7 @@ along one root-to-leaf descent (`path.length + 1` suffices). -/
 def addLoop (cfg : Sites) (sch : Schema) : Nat → Mask → Bytes → Ty → Res Mask
   | 0, _, _, _ => .crash
   | fuel + 1, cur, path, d =>
-    if path.isEmpty then .ok (cur.setIsAll true)      -- mask.go:450
+    if path.isEmpty then .ok (cur.endPath cfg)        -- mask.go:450
     else do
       let (stok, rest) ← next cfg path
       match stok with
